@@ -50,6 +50,9 @@ size of the UNFOLDED tree, i.e. of the parser's output (a DAG-compressed diction
 theorem c19_dict_parse (g : DDag) (fuel root : Nat) (keyLen : Int) :
     (dictCalls g fuel root keyLen).steps ≤ 2 * treeSize g fuel root := dictCalls_le g fuel root keyLen
 
+/-- the `deserialize_unary` loop of a label never runs more iterations than the cell has bits (≤ 1023) -/
+theorem c19_dict_label (bits : Bits) (m : Int) : (readLabel bits m).2 ≤ bits.length := readLabel_iters bits m
+
 /-- TL `bytes` re-parse loop (`while j < byte_len`): for ANY inner parser that returns advance 0 on empty input, the
 loop ends within `len(content) - j + 1` iterations, whatever `byte_len` declares (each iteration advances by ≥ 1 byte
 or breaks; past the end of the content the slice is empty). -/
